@@ -344,7 +344,7 @@ PROPS = {
             for (sc, hs, ea, ed) in [(0, (3, 1), 1, 1), (0, (4, 3, 2), 0, 2), (1, (3, 0), 1, 1), (1, (5, 3, 1), 0, 1), (2, (2, 3), 1, 2), (2, (1, 2, 0), 0, 1), (3, (3, 3), 1, 1), (3, (4, 4, 1), 0, 2)]
         ] + [
             dict(h='fibconc', mode='rc', what='random scripts and interrupt placements (ISR)', params=dict(oracle=3, mode=1),
-                 quick=dict(cases=60000, len=500), thorough=dict(cases=3000000, len=500)),
+                 quick=dict(cases=60000, len=500), thorough=dict(cases=12000000, len=500)),
         ],
         require={'returns-with-undrained-atomic-request': 1000, 'returns-with-only-timers-pending': 1000, 'returns-after-a-yield': 1000,
                  'request-completed-inside-fibre_scheduler_next': 1000},
@@ -389,7 +389,7 @@ PROPS = {
             dict(h='mqconc', mode='enum', what='ISR, 4 senders of rising priority nested to depth 3, depth 1', params=dict(mode=1, roles=0, depth=1, senders=4, msgs=1, retries=0, nest=3, oracle=4),
                  common=dict(split=4, maxruns=600000)),
             dict(h='mqconc', mode='rc', what='random scenarios and schedules', params=dict(oracle=4),
-                 quick=dict(cases=100000, len=400), thorough=dict(cases=4000000, len=400)),
+                 quick=dict(cases=100000, len=400), thorough=dict(cases=20000000, len=400)),
         ],
         require={'claims-overlap-in-time': 1000, 'queue-full-at-some-instant': 1000, 'a-claim-failed': 1000, 'two-or-more-interrupts': 1000,
                  'preempted': 1000, 'threads-mode': 1000, 'isr-senders-interrupt-receiver': 1000, 'isr-receiver-interrupts-sender': 500},
@@ -429,7 +429,7 @@ PROPS = {
             for r in (0, 1)
         ] + [
             dict(h='ringconc', mode='rc', what='random scenarios and schedules', params=dict(oracle=5),
-                 quick=dict(cases=100000, len=300), thorough=dict(cases=5000000, len=300)),
+                 quick=dict(cases=100000, len=300), thorough=dict(cases=20000000, len=300)),
         ],
         require={'buffer-was-full': 1000, 'buffer-was-empty': 1000, 'put-overlapped-get': 1000, 'putchar-spins-until-room': 500,
                  'isr-producer-interrupts-consumer': 500, 'isr-consumer-interrupts-producer': 500, 'byte-values>=0x80': 1000, 'index-wrapped': 1000, 'large-buffer-length': 500},
@@ -465,9 +465,9 @@ PROPS = {
             dict(h='conconc', mode='enum', what='console fed by an injector thread, bounded pre-emptions (params.preempt)', params=dict(mode=0, passes=3, preempt=2, oracle=6),
                  workers=2, common=dict(split=3, maxruns=1500000)),
             dict(h='conconc', mode='rc', what='console fed from interrupt / thread context, random', params=dict(oracle=6),
-                 quick=dict(cases=20000, len=300), thorough=dict(cases=1000000, len=300)),
+                 quick=dict(cases=20000, len=300), thorough=dict(cases=5000000, len=300)),
             dict(h='fibconc', mode='rc', what='random scripts, handlers, placements, both modes', params=dict(oracle=6),
-                 quick=dict(cases=60000, len=500), thorough=dict(cases=3000000, len=500)),
+                 quick=dict(cases=60000, len=500), thorough=dict(cases=12000000, len=500)),
         ],
         require={'interrupt-inside-fibre_scheduler_next': 1000, 'interrupt-inside-fibre_run': 200, 'interrupt-inside-fibre_kill': 100,
                  'interrupt-inside-fibre_run_atomic': 50, 'interrupt-nested-between-claim-and-send': 100, 'event-queue-full-path': 500,
@@ -493,15 +493,15 @@ PROPS = {
                  workers=4, common=dict(split=5, maxruns=400000)),
             dict(h='mqconc', mode='enum', what='message queue, ISR every-access, 3 nested senders', params=dict(mode=1, roles=0, depth=1, senders=3, msgs=1, retries=0, every_access=1, oracle=7),
                  workers=4, common=dict(split=4, maxruns=400000)),
-            dict(h='mqconc', mode='rc', what='message queue, random', params=dict(oracle=7), quick=dict(cases=40000, len=400), thorough=dict(cases=2000000, len=400)),
+            dict(h='mqconc', mode='rc', what='message queue, random', params=dict(oracle=7), quick=dict(cases=40000, len=400), thorough=dict(cases=8000000, len=400)),
             dict(h='ringconc', mode='enum', what='ring buffer, THREADS len 3, 3 puts, 4 consumer ops, offset 2', params=dict(mode=0, len=3, puts=3, gets=4, pre=2, empties=1, oracle=7),
                  workers=4, common=dict(split=4, maxruns=2000000)),
-            dict(h='ringconc', mode='rc', what='ring buffer, random', params=dict(oracle=7), quick=dict(cases=40000, len=300), thorough=dict(cases=2000000, len=300)),
+            dict(h='ringconc', mode='rc', what='ring buffer, random', params=dict(oracle=7), quick=dict(cases=40000, len=300), thorough=dict(cases=8000000, len=300)),
             dict(h='fibconc', mode='enum', what='fibres, ISR script 0, event + run_atomic, every access', params=dict(mode=1, script=0, every_access=1, oracle=7, handlers=2, evdepth=1, h0=3, h1=1),
                  workers=2, common=dict(split=3, maxruns=1500000)),
             dict(h='fibconc', mode='enum', what='fibres, ISR script 4 (request queue full), every access', params=dict(mode=1, script=4, every_access=1, oracle=7, handlers=2, evdepth=1, h0=1, h1=2),
                  workers=2, common=dict(split=3, maxruns=1500000)),
-            dict(h='fibconc', mode='rc', what='fibres, random, both modes', params=dict(oracle=7), quick=dict(cases=40000, len=500), thorough=dict(cases=2000000, len=500)),
+            dict(h='fibconc', mode='rc', what='fibres, random, both modes', params=dict(oracle=7), quick=dict(cases=40000, len=500), thorough=dict(cases=8000000, len=500)),
             dict(h='conconc', mode='rc', what='console fed from interrupt / thread context, random', params=dict(oracle=7), quick=dict(cases=20000, len=300), thorough=dict(cases=1000000, len=300)),
             dict(h='mqconc_fb', mode='rc', what='message queue, fallback atomics (atomic.h without <stdatomic.h>), random', params=dict(oracle=7), quick=dict(cases=20000, len=400), thorough=dict(cases=1000000, len=400)),
             dict(h='ringconc_fb', mode='rc', what='ring buffer, fallback atomics, random', params=dict(oracle=7), quick=dict(cases=20000, len=300), thorough=dict(cases=1000000, len=300)),
